@@ -254,6 +254,10 @@ type Reach struct {
 	Overlaps int
 	// NilPtr, NilSlice, EmptySlice, NilMap, EmptyMap, ZeroSized count the special cases met.
 	NilPtr, NilSlice, EmptySlice, NilMap, EmptyMap, ZeroSized int
+	// KeyStorage counts the pieces of storage that were first reached through a map KEY
+	// (pointer targets inside keys: map[*T]V, map[struct{…*T…}]V): keys are reachable storage
+	// like any other component.
+	KeyStorage int
 	// Holder keeps the walked value alive while the addresses are in use.
 	Holder any
 }
@@ -286,6 +290,16 @@ func Reachable(v reflect.Value) *Reach {
 		}
 	}
 	r.Overlaps = len(overlaps(r.Regions, nil, true))
+	for i := range r.Regions {
+		if strings.Contains(r.Regions[i].Path, "{key}") {
+			r.KeyStorage++
+		}
+	}
+	for _, p := range r.Maps {
+		if strings.Contains(p, "{key}") {
+			r.KeyStorage++
+		}
+	}
 	return r
 }
 
@@ -480,6 +494,8 @@ type scrambler struct {
 	written map[uintptr]bool // addresses of leaves/cells already overwritten
 	seen    map[visitKey]bool
 	n       int
+	viaKeys int             // locations written that were reached through a map key
+	inKey   int             // > 0 while the storage behind a map key is being overwritten
 	keep    []reflect.Value // temporaries stay alive so that their addresses are not reused
 }
 
@@ -488,11 +504,52 @@ type scrambler struct {
 // such locations are replaced by non-empty ones, maps get their values scrambled and a new
 // entry when empty.  Each location is written once even if reached on several paths.  It
 // returns the number of locations written.  After Scramble(v), Snapshot(v) differs from
-// before unless v holds no state at all.
+// before unless v holds no state at all.  Map keys themselves stay what they are (a key cannot
+// be changed in place), but the storage BEHIND a key – the targets of pointers inside keys –
+// is overwritten like everything else.
 func Scramble(v reflect.Value) int {
+	n, _ := ScrambleKeys(v)
+	return n
+}
+
+// ScrambleKeys is Scramble that also reports how many of the locations written were reached
+// through a map key.
+func ScrambleKeys(v reflect.Value) (n, viaKeys int) {
 	s := scrambler{written: map[uintptr]bool{}, seen: map[visitKey]bool{}}
 	s.scramble(Addressable(v))
-	return s.n
+	return s.n, s.viaKeys
+}
+
+// throughKey overwrites the storage behind the map key k without touching the key itself.
+func (s *scrambler) throughKey(k reflect.Value) {
+	switch k.Kind() {
+	case reflect.Pointer:
+		if k.IsNil() {
+			return
+		}
+		vk := visitKey{k.UnsafePointer(), k.Type()}
+		if s.seen[vk] {
+			return
+		}
+		s.seen[vk] = true
+		s.inKey++
+		s.scramble(k.Elem())
+		s.inKey--
+	case reflect.Struct:
+		k = Addressable(k)
+		for i := 0; i < k.NumField(); i++ {
+			s.throughKey(field(k, i))
+		}
+	case reflect.Array:
+		k = Addressable(k)
+		for i := 0; i < k.Len(); i++ {
+			s.throughKey(k.Index(i))
+		}
+	case reflect.Interface:
+		if !k.IsNil() {
+			s.throughKey(k.Elem())
+		}
+	}
 }
 
 // first reports whether the addressable location v is met for the first time.
@@ -509,6 +566,9 @@ func (s *scrambler) first(v reflect.Value) bool {
 	}
 	s.written[a] = true
 	s.n++
+	if s.inKey > 0 {
+		s.viaKeys++
+	}
 	return true
 }
 
@@ -594,6 +654,7 @@ func (s *scrambler) scramble(v reflect.Value) {
 		}
 		keys := v.MapKeys()
 		for _, key := range keys {
+			s.throughKey(key)
 			tmp := reflect.New(v.Type().Elem()).Elem()
 			s.keep = append(s.keep, tmp)
 			tmp.Set(v.MapIndex(key))
